@@ -240,3 +240,26 @@ fn visit_if_folding_contract() {
     }
     kani::cover!(!matches!(&*r, ExprKind::If(_)));
 }
+
+
+// ------------------------------------------------------------------ opt.rs: PruneConstantIfBranches
+#[kani::proof]
+#[kani::unwind(4)]
+fn prune_if_truthy_contract() {
+    let t = any_token();
+    let shape: u8 = kani::any();
+    kani::assume(shape < 3);
+    let q = ManuallyDrop::new(Quote { expr: if shape == 1 { atom(t) } else { ExprKind::List(List { args: [kani::any(), kani::any()] }) } });
+    let e = ManuallyDrop::new(if shape == 0 { atom(t) } else { ExprKind::Quote(Bx::of(&q)) });
+    if expr_is_truthy(&e) {
+        match shape {
+            // a bare atom: must be a self-evaluating non-#f literal (an identifier's value is unknown to this pass)
+            0 => assert!(reference_value_truthy(&t, None, false) == Some(true), "pruned to the then-branch although the test is not known to be true"),
+            // a quoted atom: the datum itself
+            1 => assert!(reference_datum_truthy(&t), "'#f is false"),
+            // a quoted list is a true value
+            _ => {}
+        }
+    }
+    kani::cover!(shape == 1 && expr_is_truthy(&e));
+}
